@@ -100,7 +100,7 @@ for _k, _v in {
  "C09": "Round 12: C09/hello-delimiter-installed (netconf.NewDriver stores the end-of-message delimiter behind the option loop on every success path); C09/submatch-guarded.",
  "C10": "Round 12: C10/cleanup-requeue also demands that the bytes of every Authenticate* call of Open merge into the requeued value; C10/found-telnet-negotiation, C10/found-driver-options.",
  "C11": "Round 12: C11/found-transport-pipe.",
- "C12": "Round 12: C12/onx-send-command (a hook's send-command passes no per-operation option of its own: no eager send that leaves a prompt unread).",
+ "C12": "Round 12: C12/events-not-mutated (no store into a SendInteractiveEvent the function did not build). C12/onx-send-command (a hook's send-command passes no per-operation option of its own: no eager send that leaves a prompt unread).",
  "C13": "Round 12: C13/post-process (restated), C13/found-ansi.",
  "C14": "Round 12: C14/key-errors-surface (the failing edge of reading / parsing the configured private key only logs and returns the error, in both ssh transports).",
  "C16": "Round 12: C16/found-netconf-reader.",
